@@ -122,6 +122,18 @@ def shr(a, b):
     return Iv(a.lo >> b.lo, a.hi >> b.lo, max(a.tz - b.lo, 0))
 
 
+def _max_and(hi, m):
+    """max of (v & m) over 0 <= v <= hi (exact)"""
+    if hi is None or hi < 0:
+        return m
+    best = hi & m
+    for i in range(hi.bit_length()):
+        if hi >> i & 1:
+            v = (hi & ~(1 << i)) | ((1 << i) - 1)
+            best = max(best, v & m)
+    return best
+
+
 def and_(a, b):
     # mask by constant
     if b.single and a.single:
@@ -151,7 +163,7 @@ def and_(a, b):
             low = m & -m
             if a.lo >= 0 and (a.lo // low) == (a.hi // low) and a.hi < 2 * (1 << (m.bit_length() - 1)) * 1:
                 return Iv(((a.lo // low) * low) & m)
-            return Iv(0, m, _tz(m))
+            return Iv(0, _max_and(a.hi, m) if a.lo >= 0 else m, _tz(m))
         if m < 0:
             # clearing low bits:  x & ~3
             k = ~m
